@@ -6,6 +6,8 @@
 
 #include <nitro/options/parser.hpp>
 
+#include <cstdlib>
+
 namespace h
 {
 struct UEntry
@@ -59,6 +61,7 @@ struct Case
     std::string posname;
     int prior = 0; // bytes already in the second target stream
     int moved = 0; // 0: as declared, 1: parser move-constructed before usage(), 2: move-assigned
+    int columns = 0; // > 0: the environment variable COLUMNS is set to this while usage() runs
 
     template <class A>
     void io(A& a)
@@ -72,6 +75,7 @@ struct Case
         a("posname", posname);
         a("prior", prior);
         a("moved", moved);
+        a("columns", columns);
     }
 };
 
@@ -128,6 +132,15 @@ Case generate(vf::Src& src, const std::string&)
         // keeps them unique)
         g.name = gen_word(src, 1, 8) + "-" + std::to_string(i);
         g.desc = src.coin(50) ? "" : "description of group " + std::to_string(i);
+        // a named group may carry the same heading as the default group
+        if (i > 0 && src.coin(8))
+        {
+            bool taken = false; // (group names stay unique among the named groups)
+            for (auto& other : c.groups)
+                taken |= other.name == c.default_group_name;
+            if (!taken)
+                g.name = c.default_group_name;
+        }
         c.groups.push_back(g);
     }
     int ne = static_cast<int>(src.weighted({ 5, 10, 15, 20, 20, 15, 10, 5 })) + (src.coin(20) ? 5 : 0);
@@ -144,6 +157,19 @@ Case generate(vf::Src& src, const std::string&)
             int len = src.coin(80) ? src.irange(1, 10) : src.irange(11, 30);
             e.name = src.str(nal, 1, 1) + src.str(nal + "-", std::max(0, len - 1), std::max(0, len - 1));
         } while (used.count(e.name) || e.name.compare(0, 3, "no-") == 0);
+        // now and then a name that equals an earlier one up to the case of a letter
+        if (!c.e.empty() && src.coin(6))
+        {
+            std::string v = c.e[src.index(c.e.size())].name;
+            for (auto& ch : v)
+                if (ch >= 'a' && ch <= 'z')
+                {
+                    ch = static_cast<char>(ch - 'a' + 'A');
+                    break;
+                }
+            if (!used.count(v))
+                e.name = v;
+        }
         used.insert(e.name);
         if (src.coin(60) && !letters.empty())
         {
@@ -186,6 +212,8 @@ Case generate(vf::Src& src, const std::string&)
     c.posname = src.coin(60) ? "args" : src.str("ABCDEFGHIJKLMNOP", 1, 8);
     c.prior = src.coin(50) ? src.irange(1, 200) : 0;
     c.moved = static_cast<int>(src.weighted({ 70, 15, 15 }));
+    if (src.coin(12))
+        c.columns = std::vector<int>{ 40, 79, 81, 100, 132, 238 }[src.index(6)];
     return c;
 }
 
@@ -289,6 +317,23 @@ static std::unique_ptr<nitro::options::parser> build(const Case& c)
 std::string check(const Case& c, vf::Ctx& ctx)
 {
     auto p = build(c);
+    // the text depends on the declaration only, not on the terminal the process happens to run in
+    struct Columns
+    {
+        explicit Columns(int n)
+        {
+            if (n > 0)
+                ::setenv("COLUMNS", std::to_string(n).c_str(), 1);
+            else
+                ::unsetenv("COLUMNS");
+        }
+        ~Columns()
+        {
+            ::unsetenv("COLUMNS");
+        }
+    } columns_guard(c.columns);
+    if (c.columns)
+        ctx.tag("env:COLUMNS-set");
     // ---- (1) same text on every target
     std::stringstream fresh;
     p->usage(fresh);
